@@ -348,8 +348,8 @@ def describe(repo):
         "commits": [[c.intid, [p.intid for p in c.parents], c.message, c.committed_date,
                      {p: b.data.decode() for p, b in c.tree.files.items()}]
                     for c in repo.commits.values()],
-        "branches": repo.branches, "tags": repo.tags, "remote": getattr(repo, 'remote', 'origin'),
-        "decoys": getattr(repo, 'decoys', {}), "other_tags": getattr(repo, 'other_tags', {}),
+        "branches": dict(repo.branches), "tags": dict(repo.tags), "remote": getattr(repo, 'remote', 'origin'),
+        "decoys": dict(getattr(repo, 'decoys', {})), "other_tags": dict(getattr(repo, 'other_tags', {})),
     }
 
 
